@@ -472,23 +472,61 @@ def d2_10(ctx):
 
     fn = ctx.model.func(f"{LX}:encode_value")
     p = fn.node.args.args[0].arg
-    for start, count, supplied in ((0, 32, 32), (0, 40, 40), (0, 64, 64), (32, 72, 72), (32, 64, 64), (0, 40, 64), (64, 96, 200), (0, 33, 33)):
-        total = start + count
+    # non-BOOL witnesses: (label, parsed request, expected (values handed to the encoder, count) or "RequestError")
+    arr_t, atom_t = Obj(kind="array"), Obj(kind="atomic")
+    info = lambda t, name="DINT": {"data_type_name": name, "type_class": t, "data_type": name, "tag_type": "atomic"}  # noqa: E731
+    plain = [
+        ("arr[3] = 5", {"value": 5, "elements": 1, "bit": None, "bool_elements": None, "tag_info": info(arr_t)}, ([5], 1)),
+        ("arr{2} = [1, 2]", {"value": [1, 2], "elements": 2, "bit": None, "bool_elements": None, "tag_info": info(arr_t)}, ([1, 2], 2)),
+        ("arr{2} = [1, 2, 3]", {"value": [1, 2, 3], "elements": 2, "bit": None, "bool_elements": None, "tag_info": info(arr_t)}, ([1, 2], 2)),
+        ("arr{3} = [1, 2]", {"value": [1, 2], "elements": 3, "bit": None, "bool_elements": None, "tag_info": info(arr_t)}, "RequestError"),
+        ("d = 5", {"value": 5, "elements": 1, "bit": None, "bool_elements": None, "tag_info": info(atom_t)}, (5, None)),
+        ("s[1] = 'abc'", {"value": "abc", "elements": 1, "bit": None, "bool_elements": None, "tag_info": info(arr_t, "STRING")}, (["abc"], 1)),
+        ("raw bytes", {"value": b"\x01\x02", "elements": 1, "bit": None, "bool_elements": None, "tag_info": info(atom_t)}, b"\x01\x02"),
+    ]
+    for label, parsed, want in plain:
+        calls = []
+
+        def hook2(call, env, it, _calls=calls):
+            n_ = call_name(call) or ""
+            if n_ == "issubclass":
+                v_ = it.ev(call.args[0], env)
+                return isinstance(v_, Obj) and v_.__dict__.get("kind") == "array" and atom_name(call.args[1]) == "ArrayType"
+            if isinstance(call.func, ast.Attribute) and call.func.attr == "encode" and atom_name(call.func.value) == "_type":
+                vals = it.ev(call.args[0], env)
+                cnt = it.ev(call.args[1], env) if len(call.args) > 1 else None
+                _calls.append((vals, cnt))
+                return b"<encoded>"
+            return UNKNOWN
+
+        kind, res = run_function(ctx, fn.module, fn.node, {p: parsed}, call_hook=hook2, deep=False)
+        key = ckey(fn, f"value@{label}")
+        if kind == "unknown":
+            ctx.undecided(key, fn.node, f"encode_value not foldable on {label}: {res}")
+            continue
+        if want == "RequestError":
+            ctx.check(kind == "raise" and res == "RequestError", key, fn.node, f"{label} is refused with RequestError", f"{label}: {kind} {res!r} instead of RequestError")
+        elif isinstance(want, bytes):
+            ctx.check(kind == "return" and res == want and not calls, key, fn.node, f"{label} passes through", f"{label}: {kind} {res!r}, encoder calls {calls}")
+        else:
+            ctx.check(kind == "return" and res == b"<encoded>" and calls == [want], key, fn.node, f"{label}: encoder receives {want}", f"{label}: {kind} {res!r}; the type's encoder received {calls} (expected {[want]}): a valid value is refused or the wrong values / count are encoded")
+    for start, count, supplied in ((0, 32, 32), (0, 40, 40), (0, 64, 64), (32, 72, 72), (32, 64, 64), (0, 40, 64), (64, 96, 200), (0, 33, 33), (None, 64, 64)):
+        if start is None:
+            start_bit = None
+            total = count
+        else:
+            start_bit = start
+            total = start + count
         elements0 = total // 32 + (1 if total % 32 else 0)
         calls = []
         type_obj = Obj(kind="array")
-        parsed = {"value": [True] * supplied, "elements": elements0, "bit": start, "bool_elements": count,
+        parsed = {"value": [True] * supplied, "elements": elements0, "bit": start_bit, "bool_elements": count,
                   "tag_info": {"data_type_name": "DWORD", "type_class": type_obj, "data_type": "DWORD", "tag_type": "atomic"}}
 
         def hook(call, env, it, _calls=calls):
             n_ = call_name(call) or ""
             if n_ == "issubclass":
                 return True
-            if n_ == "isinstance":
-                v = it.ev(call.args[0], env)
-                kinds = {"bytes": (bytes,), "str": (str,), "Sequence": (list, tuple, str, bytes), "int": (int,), "list": (list,)}
-                names = [atom_name(x) for x in (call.args[1].elts if isinstance(call.args[1], ast.Tuple) else [call.args[1]])]
-                return any(isinstance(v, kinds.get(nm.split(".")[-1], ())) for nm in names)
             if isinstance(call.func, ast.Attribute) and call.func.attr == "encode" and atom_name(call.func.value) == "_type":
                 vals = it.ev(call.args[0], env)
                 cnt = it.ev(call.args[1], env) if len(call.args) > 1 else None
@@ -503,8 +541,10 @@ def d2_10(ctx):
         if kind == "unknown":
             ctx.undecided(key, fn.node, f"encode_value not foldable on this witness: {res}")
             continue
+        whole = count % 32 == 0 and supplied >= count
         if kind == "raise":
-            ctx.check(res == "RequestError", key, fn.node, f"flags[{start}]{{{count}}} with {supplied} values is refused with RequestError", f"flags[{start}]{{{count}}}: {res} escapes encode_value instead of RequestError", outcome=res)
+            ctx.check(res == "RequestError" and not whole, key, fn.node, f"flags[{start}]{{{count}}} with {supplied} values is refused with RequestError",
+                      f"flags[{start}]{{{count}}} with {supplied} values: {res}" + (" - a write of whole, aligned DWORDs is refused" if whole else " escapes encode_value instead of RequestError"), outcome=res)
             continue
         sent = calls[-1][1] if calls else None
         ok = bool(calls) and isinstance(sent, int) and 32 * sent >= count and parsed.get("elements") == sent and isinstance(res, (bytes, bytearray)) and len(res) == 4 * sent
